@@ -2,6 +2,7 @@ package h
 
 import (
 	"fmt"
+	"moqsym/smt"
 	"os"
 	"path/filepath"
 	"sort"
@@ -23,6 +24,9 @@ var Extras = map[string]func(env *Env, pr *PropResult){}
 
 func RunProperty(o Options) (int, error) {
 	t0 := time.Now()
+	if os.Getenv("MOQSYM_SLOW") != "" {
+		smt.SlowLog = os.Stderr
+	}
 	mk, ok := Properties[o.Prop]
 	if !ok {
 		return 2, fmt.Errorf("no check registered for property %q", o.Prop)
@@ -122,12 +126,13 @@ func RunProperty(o Options) (int, error) {
 }
 
 func init() {
-	Properties["C13"] = func(env *Env) []*Harness { return []*Harness{HExported()} }
+	Properties["C13"] = func(env *Env) []*Harness { return []*Harness{HExported(), HVars()} }
 	Properties["C20"] = func(env *Env) []*Harness { return []*Harness{HPairName(), HMock(), HRun()} }
 	Properties["C17"] = func(env *Env) []*Harness { return []*Harness{HRun(), HMain(), HMock()} }
 	for _, p := range []string{"C03", "C04", "C05", "C06", "C07", "C08"} {
 		Properties[p] = func(env *Env) []*Harness { return []*Harness{HGenSeq()} }
 	}
+	Properties["C12"] = func(env *Env) []*Harness { return []*Harness{HVars()} }
 	Properties["C15"] = func(env *Env) []*Harness { return []*Harness{HRun()} }
 	Properties["C18"] = func(env *Env) []*Harness { return []*Harness{HRun()} }
 }
